@@ -1272,6 +1272,12 @@ impl QueryRouter {
         self.active_shard = shard;
     }
 
+    /// Plugins are a pool policy: a client must not be able to switch them off
+    /// by overriding query parsing for routing purposes.
+    pub fn plugins_enabled(&self) -> bool {
+        self.pool_settings.query_parser_enabled && self.pool_settings.plugins.is_some()
+    }
+
     /// Should we attempt to parse queries?
     pub fn query_parser_enabled(&self) -> bool {
         match self.query_parser_enabled {
